@@ -30,7 +30,7 @@ var (
 	c03GlobPaths = []string{"/*", "/a*", "/a/*", "/a/b*", "/a/b/*", "/ab*", "/A/b*", "/b*", "/a/b/c", "/a/{", "/a{", "/{",
 		// literal characters that sort below '*' and a '?' that sorts above the digits: the longer literal prefix still wins
 		"/a/$meta", "/a/(d)/*", "/a/v?*", "/a/v1/u*", "/a/!x*"}
-	c03ReqPaths  = []string{"/a/$meta", "/a/(d)/x", "/a/v1/u/5", "/a/v2/x", "/a/!x/y", "/", "/a", "/a/", "/a/b", "/a/b/c", "/a/b/c/d", "/ab", "/abc", "/A/b", "/A/B", "/b", "/B/x", "/c", "/foo/bar", "/FOO/bar/x", "/Foo", "",
+	c03ReqPaths = []string{"/a/$meta", "/a/(d)/x", "/a/v1/u/5", "/a/v2/x", "/a/!x/y", "/", "/a", "/a/", "/a/b", "/a/b/c", "/a/b/c/d", "/ab", "/abc", "/A/b", "/A/B", "/b", "/B/x", "/c", "/foo/bar", "/FOO/bar/x", "/Foo", "",
 		"/istanbul/map", "/\u0130STANBUL", "/kelvin/a/b", "/Kelvin/a", "/\u212Aelvin/a/x", "/\u00fcber/x", "/\u00dcBER"}
 )
 
